@@ -92,7 +92,8 @@ impl LayerContents {
             .iter()
             .position(|l| l.path.to_str() == Some(DEFAULT_GLYPHS_DIRNAME))
             .ok_or(FontLoadError::MissingDefaultLayer)?;
-        layers.rotate_left(default_idx);
+        let default_layer = layers.remove(default_idx);
+        layers.insert(0, default_layer);
 
         // Record the directories in use, so that layers created later do not reuse one.
         let path_set = layers
